@@ -266,3 +266,38 @@ def run_cases(res, prop, cases, tier, seed, t_end, sample, observers=(), scope=N
                 return
     if tier == 'thorough':
         res.notes.append('%s: all %d cases x %d versions' % (label, len(cases), len(versions)))
+
+
+# ------------------------------------------------------------------ connection life-cycle (C20)
+
+LIFE_ROLES = {
+    'sub': [[b'subscribe', b'ch1']],
+    'psub': [[b'psubscribe', b'ch*']],
+    'both': [[b'subscribe', b'ch1', b'ch2'], [b'psubscribe', b'c?1']],
+    'watch': [[b'watch', b'k1']],
+    'multi': [[b'watch', b'k1'], [b'multi'], [b'set', b'k1', b'q']],
+}
+
+
+def lifecycle_cases(sizes=(2, 3)):
+    """n connections take a role each and are then closed / collected BACK TO BACK (no command in between), in every order of
+    roles and kinds; a surviving subscriber (9) and watcher (8) stay.  Afterwards the prober (1) publishes, writes the watched key
+    and publishes again, and the surviving watcher runs its transaction: closed connections must have vanished for all of them."""
+    import itertools
+    out = []
+    for n in sizes:
+        for roles in itertools.product(sorted(LIFE_ROLES), repeat=n):
+            for kinds in itertools.product(('close', 'gc'), repeat=n):
+                case = [('open', 9), ('cmd', 9, [b'subscribe', b'ch1']), ('open', 8), ('cmd', 8, [b'watch', b'k1']),
+                        ('cmd', 8, [b'multi']), ('cmd', 8, [b'get', b'k1'])]
+                for i, r in enumerate(roles):
+                    c = 2 + i
+                    case.append(('open', c))
+                    for f in LIFE_ROLES[r]:
+                        case.append(('cmd', c, list(f)))
+                for i, k in enumerate(kinds):
+                    case.append((k, 2 + i))
+                case += [[b'publish', b'ch1', b'm1'], [b'set', b'k1', b'v'], [b'publish', b'ch1', b'm2'], [b'publish', b'ch2', b'm3'],
+                         ('cmd', 8, [b'exec']), ('close', 9), [b'publish', b'ch1', b'm4']]
+                out.append(case)
+    return out
